@@ -388,8 +388,170 @@ def _desugar_match(tree: ast.AST) -> ast.AST:
     if src_names & {"map", "starmap", "methodcaller"} or any(isinstance(n, ast.Set) and len(n.elts) == 1 and isinstance(n.elts[0], ast.Starred) for n in ast.walk(tree)):
         tree = _FunctionalDesugar().visit(tree)
         ast.fix_missing_locations(tree)
+    tree = _normalise_constants(tree)
     return tree
 
+
+
+_ALIAS_METHODS = {"append", "extend", "add", "update", "insert"}
+
+
+def _immutable_literal(v) -> bool:
+    """a str/number constant, a tuple of such or of plain names (classes, enum members), or `"<text>".format`"""
+    if isinstance(v, ast.Constant) and isinstance(v.value, (str, int, float)) and not isinstance(v.value, bool):
+        return True
+    if isinstance(v, ast.Tuple) and v.elts:
+        for e in v.elts:
+            b = e
+            while isinstance(b, ast.Attribute):
+                b = b.value
+            if not (isinstance(e, ast.Constant) and isinstance(e.value, (str, int, float)) or (isinstance(b, ast.Name) and not isinstance(e, ast.Constant))):
+                return False
+        return True
+    if isinstance(v, ast.Attribute) and v.attr == "format" and isinstance(v.value, ast.Constant) and isinstance(v.value.value, str):
+        return True
+    return False
+
+
+class _ConstantNames(ast.NodeTransformer):
+    """Load-time normalisation: a private module-level name bound exactly once to an immutable literal (text, tuple of
+    names / texts, `"...".format`) is a NAME for that literal; inside function bodies it is read as the literal, so
+    hoisting a per-call literal into a module constant does not change what the rules see.  Inside one function, a local
+    bound exactly once to such a literal, or to a bound container method (`append = clauses.append`), is read the same
+    way: `append(x)` is `clauses.append(x)`."""
+
+    def __init__(self, consts: dict):
+        self.consts = consts
+        self.count = 0
+
+    def visit_ClassDef(self, node: ast.ClassDef):
+        self.generic_visit(node)
+        if self.consts:
+            consts, outer = self.consts, self
+
+            class Sub(ast.NodeTransformer):
+                def visit_Name(self, n):
+                    if isinstance(n.ctx, ast.Load) and n.id in consts:
+                        outer.count += 1
+                        return ast.copy_location(_copy_expr(consts[n.id]), n)
+                    return n
+            for st in node.body:        # class-level tables spelled through a module constant
+                if isinstance(st, (ast.Assign, ast.AnnAssign)) and st.value is not None:
+                    st.value = Sub().visit(st.value)
+                    ast.fix_missing_locations(st)
+        return node
+
+    def visit_FunctionDef(self, node: ast.FunctionDef):
+        # innermost functions first
+        self.generic_visit(node)
+        if getattr(node, "_cn_done", False):
+            return node
+        node._cn_done = True
+        stores: dict[str, int] = {}
+        for a in ast.walk(node.args):
+            if isinstance(a, ast.arg):
+                stores[a.arg] = stores.get(a.arg, 0) + 2
+        for n_ in ast.walk(node):
+            if isinstance(n_, ast.Name) and isinstance(n_.ctx, (ast.Store, ast.Del)):
+                stores[n_.id] = stores.get(n_.id, 0) + 1
+            elif isinstance(n_, (ast.Global, ast.Nonlocal)):
+                for x in n_.names:
+                    stores[x] = stores.get(x, 0) + 2
+            elif isinstance(n_, (ast.FunctionDef, ast.ClassDef)) and n_ is not node:
+                stores[n_.name] = stores.get(n_.name, 0) + 2
+        mp = {k: v for k, v in self.consts.items() if k not in stores}
+        drop = []
+        # local aliases, in statement order at the top level of the body (not under a branch or loop)
+        own = []            # assignments of this function (not of nested functions), at any depth
+
+        def collect(stmts):
+            for st_ in stmts:
+                if isinstance(st_, (ast.FunctionDef, ast.AsyncFunctionDef, ast.ClassDef)):
+                    continue
+                if isinstance(st_, ast.Assign):
+                    own.append((st_, stmts is node.body))
+                for fld in ("body", "orelse", "finalbody"):
+                    sub = getattr(st_, fld, None)
+                    if isinstance(sub, list):
+                        collect(sub)
+                for h in getattr(st_, "handlers", []) or []:
+                    collect(h.body)
+        collect(node.body)
+        for st, top in own:
+            if isinstance(st, ast.Assign) and len(st.targets) == 1 and isinstance(st.targets[0], ast.Name) and stores.get(st.targets[0].id) == 1:
+                v = st.value
+                nm = st.targets[0].id
+                if isinstance(v, ast.Name) and v.id in mp:
+                    v = mp[v.id]
+                if _immutable_literal(v) and top:
+                    mp[nm] = v
+                    drop.append(st)
+                elif (isinstance(v, ast.Attribute) and v.attr in _ALIAS_METHODS and isinstance(v.value, ast.Name) and stores.get(v.value.id) == 1
+                      and v.value.id not in [a.arg for a in ast.walk(node.args) if isinstance(a, ast.arg)]):
+                    # the container is itself a local bound once: the alias means the same call wherever it is used
+                    uses = [n_ for n_ in ast.walk(node) if isinstance(n_, ast.Name) and n_.id == nm and isinstance(n_.ctx, ast.Load)]
+                    calls = {id(c.func) for c in ast.walk(node) if isinstance(c, ast.Call) and isinstance(c.func, ast.Name) and c.func.id == nm}
+                    if uses and all(id(u) in calls for u in uses):
+                        mp[nm] = v
+                        drop.append(st)
+        if not mp:
+            return node
+        used = {n_.id for n_ in ast.walk(node) if isinstance(n_, ast.Name) and isinstance(n_.ctx, ast.Load)}
+        if not (used & set(mp)):
+            return node
+        outer = self
+
+        class Sub(ast.NodeTransformer):
+            def visit_Name(self, n):
+                if isinstance(n.ctx, ast.Load) and n.id in mp:
+                    outer.count += 1
+                    return ast.copy_location(_copy_expr(mp[n.id]), n)
+                return n
+
+            def _scoped(self, n):
+                # a nested scope that binds one of the names itself (parameter, local) means something else by it
+                rebound = {a.arg for a in ast.walk(n.args) if isinstance(a, ast.arg)} | {
+                    x.id for x in ast.walk(n) if isinstance(x, ast.Name) and isinstance(x.ctx, (ast.Store, ast.Del))}
+                if rebound & set(mp):
+                    return n
+                return self.generic_visit(n)
+            visit_FunctionDef = visit_Lambda = _scoped
+        dropped = {id(d) for d in drop}
+
+        class Drop(ast.NodeTransformer):
+            def visit_Assign(self, n):
+                return ast.copy_location(ast.Pass(), n) if id(n) in dropped else n
+        for i, st in enumerate(node.body):
+            node.body[i] = Sub().visit(Drop().visit(st))
+        ast.fix_missing_locations(node)
+        return node
+
+
+def _module_constants(tree: ast.Module) -> dict:
+    cnt: dict[str, int] = {}
+    val: dict[str, ast.expr] = {}
+    for st in tree.body:
+        tg = v = None
+        if isinstance(st, ast.Assign) and len(st.targets) == 1 and isinstance(st.targets[0], ast.Name):
+            tg, v = st.targets[0].id, st.value
+        elif isinstance(st, ast.AnnAssign) and isinstance(st.target, ast.Name) and st.value is not None:
+            tg, v = st.target.id, st.value
+        if tg:
+            cnt[tg] = cnt.get(tg, 0) + 1
+            val[tg] = v
+    for n_ in ast.walk(tree):
+        if isinstance(n_, ast.Global):
+            for x in n_.names:
+                cnt[x] = cnt.get(x, 0) + 2
+    return {k: v for k, v in val.items() if cnt[k] == 1 and k.startswith("_") and _immutable_literal(v)}
+
+
+def _normalise_constants(tree: ast.Module) -> ast.Module:
+    tr = _ConstantNames(_module_constants(tree))
+    for i, st in enumerate(tree.body):
+        if isinstance(st, (ast.FunctionDef, ast.ClassDef)):
+            tree.body[i] = tr.visit(st)
+    return tree
 
 
 class _PredicateInliner(ast.NodeTransformer):
